@@ -505,6 +505,21 @@ class DiagLock(sched.SchedLock):
         super().release()
 
 
+def _sched_run(s, fns):
+    """Scheduler.run without its full gc.collect(): with tens of thousands of cases in memory a full collection before every
+    run costs more than the run.  The garbage of the previous run is young: collect the young generations, then keep the
+    collector off while the traced workers run (no finaliser of an earlier world inside a worker), as Scheduler.run does."""
+    import gc
+    was = gc.isenabled()
+    gc.collect(1)
+    gc.disable()
+    try:
+        return s._run(fns)
+    finally:
+        if was:
+            gc.enable()
+
+
 class Lin:
     """Observer of ONE run of real threads under the deterministic scheduler: turns what the threads do into the steps of
     the threads model (coq/C13/Model.v, Part 1c) - which thread moved, in which order - and records, per step, what the
@@ -1106,7 +1121,7 @@ class C13(Check):
             "every lysosome.py line executed while holding none): 11 fixed programs (threshold reached by one thread while the other is inside "
             "digest(); both threads ingesting into a FULL queue with the threshold out of reach, with and without a digest afterwards; "
             "threshold 1; autophagy against ingest / digest; digest passes side by side over raising digesters) + random ones, explored "
-            "fewest-preemptions-first (<=2 preemptions, 90 schedules per program quick; <=3, 400 thorough), plus random schedules (every 8th "
+            "fewest-preemptions-first (<=2 preemptions, 250 schedules per program quick; <=3, 400 thorough), plus random schedules (every 8th "
             "generated case). EVERY scheduled run is a case: the harness records the order in which the steps of the threads took effect "
             "(one step per critical section of a call, one per digester call of a digest() in progress) and what the lock protects (queue "
             "ids, total_ingested, by_type) at each of them, the DigestResults, and the quiescent final state; the threads model (Model.v "
@@ -2269,18 +2284,17 @@ class C13(Check):
         # two digest passes side by side over items whose digesters RAISE: each failure is reported by exactly one result
         {"cfg": {"max": 8, "thr": 9, "ret": 1, "cb": True}, "pre": 3,
          "pre_ops": [["ingest", 2, 0, None], ["ingest", 2, 0, None], ["ingest", 0, 0, None]],
-         "threads": [[["digest", 2]], [["digest", None]]], "quick_runs": 70},
+         "threads": [[["digest", 2]], [["digest", None]]]},
         # a digest pass over raising digesters against an ingest that reaches the auto-digest threshold, then a digest
         {"cfg": {"max": 8, "thr": 2, "ret": 1, "cb": True}, "pre": 1,
          "pre_ops": [["ingest", 2, 0, None]],
-         "threads": [[["digest", None], ["digest", None]], [["ingest", 0, 0, None], ["ingest", 3, 0, None], ["digest", None]]],
-         "quick_runs": 70},
+         "threads": [[["digest", None], ["digest", None]], [["ingest", 0, 0, None], ["ingest", 3, 0, None], ["digest", None]]]},
         # capacity, nothing but ingests: both threads ingest into a full queue (threshold out of reach), no digest afterwards
         {"cfg": {"max": 2, "thr": 9, "ret": 1, "cb": True}, "pre": 2,
-         "threads": [[["ingest", 1, 0, []]], [["ierr", [0]], ["isens", []]]], "quick_runs": 100},
+         "threads": [[["ingest", 1, 0, []]], [["ierr", [0]], ["isens", []]]]},
         # capacity 3 = threshold - 1: ingests at capacity against autophagy (nothing expires) and a partial digest
         {"cfg": {"max": 3, "thr": 4, "ret": 2, "cb": True}, "pre": 3,
-         "threads": [[["isens", None], ["ingest", 0, 0, [2]]], [["ingest", 3, 0, None], ["auto"], ["digest", 1]]], "quick_runs": 100},
+         "threads": [[["isens", None], ["ingest", 0, 0, [2]]], [["ingest", 3, 0, None], ["auto"], ["digest", 1]]]},
     ]
 
     def run_sched(self, tc, prefix):
@@ -2348,7 +2362,7 @@ class C13(Check):
             hung = False
             try:
                 with rig.quiet():
-                    common.call_with_watchdog(lambda: s.run(fns), 20.0)
+                    common.call_with_watchdog(lambda: _sched_run(s, fns), 20.0)
             except common.Hang:
                 hung = True
             leaked = [t for t in threading.enumerate() if t not in threads_before and t.is_alive()]
@@ -2450,16 +2464,21 @@ class C13(Check):
             if v is not None:
                 first = (v, chosen)
                 break
+            # cum[j] = preemptions within chosen[:j] (a switch away from a thread that could have gone on)
+            cum = [0, 0]
+            for j in range(1, len(chosen)):
+                cum.append(cum[-1] + (1 if chosen[j] != chosen[j - 1] and chosen[j - 1] in s.trace[j][1] else 0))
             for i in range(len(prefix), len(s.trace)):
                 c, enabled = s.trace[i]
                 if c is None:
                     continue
+                if cum[min(i, len(cum) - 1)] > bound:
+                    break
                 for alt in enabled:
                     if alt != c:
-                        cand = chosen[:i] + [alt]
-                        p = self._preemptions(cand, s.trace)
+                        p = cum[i] + (1 if i >= 1 and alt != chosen[i - 1] and chosen[i - 1] in enabled else 0)
                         if p <= bound:
-                            heapq.heappush(heap, (p, tick, cand))
+                            heapq.heappush(heap, (p, tick, chosen[:i] + [alt]))
                             tick += 1
         return runs, len(seen), first, not heap
 
@@ -2503,8 +2522,8 @@ class C13(Check):
         with the threads model on the order in which the steps of the threads took effect."""
         rng = random.Random(f"C13:sched:{self.seed}")
         quick = self.tier == "quick"
-        bound, per = (2, 90) if quick else (3, 400)
-        progs = [dict(p) for p in self.SCHED_PROGRAMS] + [self._sched_program(rng) for _ in range(1 if quick else 16)]
+        bound, per = (2, 250) if quick else (3, 400)
+        progs = [dict(p) for p in self.SCHED_PROGRAMS] + [self._sched_program(rng) for _ in range(3 if quick else 16)]
         total = distinct = bad = exhausted = skipped = 0
         cases = []
         t_end = time.time() + (60 if quick else 300)       # wall guard on a loaded machine; reported when it bites
@@ -2513,7 +2532,7 @@ class C13(Check):
                 skipped += 1
                 continue
             got = []
-            runs, nseen, first, done = self.explore_sched(tc, bound, min(per, tc.get("quick_runs", per)) if quick else per, got)
+            runs, nseen, first, done = self.explore_sched(tc, bound, per, got)
             total += runs
             distinct += nseen
             exhausted += 1 if done else 0
